@@ -485,10 +485,22 @@ func c18(c *Ctx) {
 				ok = true
 			} else if call, isCall := last.(*ast.CallExpr); isCall && isUnm(call) {
 				ok = true
-			} else if d := uniqueDef(info, fi.Node(), last); d != nil {
-				if call, isCall := ast.Unparen(d).(*ast.CallExpr); isCall && isUnm(call) {
-					ok = true
+			} else if id, isID := last.(*ast.Ident); isID {
+				// every definition of the variable is an Unmarshal call (a bare `var err error` declaration aside)
+				defs := defsOf(info, fi.Node(), astx.Obj(info, id))
+				nU := 0
+				ok = true
+				for _, d := range defs {
+					if d == nil {
+						continue
+					}
+					if call, isCall := ast.Unparen(d).(*ast.CallExpr); isCall && isUnm(call) {
+						nU++
+					} else {
+						ok = false
+					}
 				}
+				ok = ok && nU > 0
 			}
 			r.Check(ok, "C18.F2", fi.Name(), "after the bytes unmarshalled the entry is returned, not rejected", c.P.Pos(rs.Pos()), "error result is nil or the Unmarshal error",
 				"the reader refuses an entry for a reason other than a decoding failure: the store writes every entry raft hands it (configuration changes, barriers, no-ops), so an entry the store acknowledged cannot be read back and the store does not open again")
@@ -918,8 +930,8 @@ func (c *Ctx) c18Batch() {
 				case *ast.ForStmt:
 					// for i := 0; i < len(X); i++: the same loop in index form
 					item := "?"
-					if be, ok := ast.Unparen(x.Cond).(*ast.BinaryExpr); x.Cond != nil && ok {
-						item = itemName(info, be.Y, locals)
+					if cnt, ok := loopCount(info, x); ok {
+						item = itemName(info, cnt, locals)
 						item = strings.TrimSuffix(strings.TrimPrefix(item, "len("), ")")
 					}
 					wops = append(wops, codecOp{kind: "loop", item: item, pos: x.Pos()})
@@ -936,6 +948,21 @@ func (c *Ctx) c18Batch() {
 					}
 					if en, m := endianOf(info, call); m == "PutUint64" && len(call.Args) == 2 {
 						wops = append(wops, codecOp{kind: "u64", endian: en, item: itemName(info, call.Args[1], locals), adv: adv, pos: call.Pos()})
+					} else if fid, isID := ast.Unparen(call.Fun).(*ast.Ident); isID && len(call.Args) == 1 {
+						// a local closure `put := func(v uint64) { binary.X.PutUint64(buffer[n:], v); n += 8 }` used as one item
+						if d := uniqueDef(info, enc.Node(), fid); d != nil {
+							if fl, ok := ast.Unparen(d).(*ast.FuncLit); ok && len(fl.Body.List) == 2 && len(fl.Type.Params.List) == 1 && len(fl.Type.Params.List[0].Names) == 1 {
+								if es2, ok := fl.Body.List[0].(*ast.ExprStmt); ok {
+									if c2, ok := es2.X.(*ast.CallExpr); ok {
+										if en, m := endianOf(info, c2); m == "PutUint64" && len(c2.Args) == 2 {
+											if pid, ok := ast.Unparen(c2.Args[1]).(*ast.Ident); ok && astx.Obj(info, pid) == info.Defs[fl.Type.Params.List[0].Names[0]] {
+												wops = append(wops, codecOp{kind: "u64", endian: en, item: itemName(info, call.Args[0], locals), adv: cursorAdv(info, fl.Body.List[1], locals), pos: call.Pos()})
+											}
+										}
+									}
+								}
+							}
+						}
 					} else if astx.Builtin(info, call) == "copy" && len(call.Args) == 2 {
 						wops = append(wops, codecOp{kind: "bytes", item: itemName(info, call.Args[1], locals), adv: adv, pos: call.Pos()})
 					}
@@ -1014,8 +1041,8 @@ func (c *Ctx) c18Batch() {
 					rops = append(rops, codecOp{kind: "endloop"})
 				case *ast.ForStmt:
 					item := "?"
-					if be, ok := ast.Unparen(x.Cond).(*ast.BinaryExpr); x.Cond != nil && ok {
-						item = itemName(info, be.Y, locals)
+					if cnt, ok := loopCount(info, x); ok {
+						item = itemName(info, cnt, locals)
 						item = strings.TrimSuffix(strings.TrimPrefix(item, "len("), ")")
 					}
 					rops = append(rops, codecOp{kind: "loop", item: item, pos: x.Pos()})
@@ -1159,15 +1186,74 @@ func (c *Ctx) c18Batch() {
 			return found
 		}
 		var accV []int
+		// local closures that access the buffer at the cursor and then advance it count as one self-advancing access
+		selfAdv := map[types.Object]bool{}
+		ast.Inspect(fi.Body(), func(n ast.Node) bool {
+			as, ok := n.(*ast.AssignStmt)
+			if !ok || len(as.Lhs) != 1 || len(as.Rhs) != 1 {
+				return true
+			}
+			fl, ok := ast.Unparen(as.Rhs[0]).(*ast.FuncLit)
+			if !ok || len(fl.Body.List) < 2 {
+				return true
+			}
+			last, ok := fl.Body.List[len(fl.Body.List)-1].(*ast.AssignStmt)
+			if !ok || last.Tok != token.ADD_ASSIGN {
+				return true
+			}
+			acc := false
+			for _, st := range fl.Body.List[:len(fl.Body.List)-1] {
+				if usesCursor(st) {
+					acc = true
+				}
+				switch st.(type) {
+				case *ast.ExprStmt, *ast.AssignStmt:
+				default:
+					return true // only straight-line closures
+				}
+			}
+			if lid, ok := last.Lhs[0].(*ast.Ident); ok && acc && astx.Obj(info, lid) == cursor {
+				if id, ok := as.Lhs[0].(*ast.Ident); ok {
+					selfAdv[astx.Obj(info, id)] = true
+				}
+			}
+			return true
+		})
+		callsSelfAdv := func(n ast.Node) bool {
+			if n == nil {
+				return false
+			}
+			if _, isDef := n.(*ast.AssignStmt); isDef {
+				if as := n.(*ast.AssignStmt); len(as.Rhs) == 1 {
+					if _, isLit := ast.Unparen(as.Rhs[0]).(*ast.FuncLit); isLit {
+						return false
+					}
+				}
+			}
+			for _, call := range astx.Calls(n, false) {
+				if id, ok := ast.Unparen(call.Fun).(*ast.Ident); ok && selfAdv[astx.Obj(info, id)] {
+					return true
+				}
+			}
+			return false
+		}
 		for _, v := range g.Nodes() {
 			if as, ok := v.Node.(*ast.AssignStmt); ok && as.Tok == token.ADD_ASSIGN {
 				continue
 			}
-			if usesCursor(v.Node) {
+			if as, ok := v.Node.(*ast.AssignStmt); ok && len(as.Rhs) == 1 {
+				if _, isLit := ast.Unparen(as.Rhs[0]).(*ast.FuncLit); isLit {
+					continue
+				}
+			}
+			if usesCursor(v.Node) || callsSelfAdv(v.Node) {
 				accV = append(accV, v.ID)
 			}
 		}
 		isAdv := func(x int) bool {
+			if callsSelfAdv(g.V[x].Node) {
+				return true
+			}
 			as, ok := g.V[x].Node.(*ast.AssignStmt)
 			if !ok || as.Tok != token.ADD_ASSIGN || len(as.Lhs) != 1 {
 				return false
@@ -1185,10 +1271,24 @@ func (c *Ctx) c18Batch() {
 		}
 		for _, a := range accV {
 			stale := false
+			if callsSelfAdv(g.V[a].Node) {
+				continue // advances by itself
+			}
 			for _, e := range g.V[a].Succ {
+				if isAdv(e.To) && !callsSelfAdv(g.V[e.To].Node) {
+					continue
+				}
 				reach := g.Reach(e.To, isAdv, nil)
 				for _, b := range accV {
-					if (reach[b] || e.To == b) && !isAdv(e.To) {
+					hit := reach[b] || e.To == b
+					if !hit && callsSelfAdv(g.V[b].Node) {
+						for _, pe := range g.V[b].Pred {
+							if reach[pe.From] {
+								hit = true
+							}
+						}
+					}
+					if hit {
 						stale = true
 					}
 				}
@@ -1205,8 +1305,8 @@ func (c *Ctx) c18Batch() {
 			if !ok || fs.Cond == nil {
 				return true
 			}
-			be, ok := ast.Unparen(fs.Cond).(*ast.BinaryExpr)
-			r.Check(ok && be.Op == token.LSS, "C18.F4", fi.Name(), "index loop stops before the element count", c.P.Pos(fs.Cond.Pos()), "i < count",
+			_, ok = loopCount(info, fs)
+			r.Check(ok, "C18.F4", fi.Name(), "index loop stops before the element count", c.P.Pos(fs.Cond.Pos()), "i := 0; i < count; i++  or  j := count; j > 0; j--",
 				"an index loop of the codec runs one element too far (or uses another comparison): out-of-range access or an extra element read from the following bytes")
 			return true
 		})
@@ -1407,3 +1507,63 @@ func (c *Ctx) c18BatchSize(enc *load.FuncInfo, wops []codecOp) {
 }
 
 var _ = cfgx.NoReturn
+
+// loopCount returns the expression that gives the number of iterations of a counting loop in one of the forms
+// `i := 0; i < N; i++`, `N > i` likewise, or `j := N; j > 0 (>= 1, != 0); j--`; ok is false for any other form.
+func loopCount(info *types.Info, fs *ast.ForStmt) (ast.Expr, bool) {
+	if fs.Cond == nil || fs.Init == nil || fs.Post == nil {
+		return nil, false
+	}
+	init, ok := fs.Init.(*ast.AssignStmt)
+	if !ok || len(init.Lhs) != 1 || len(init.Rhs) != 1 {
+		return nil, false
+	}
+	iv, ok := init.Lhs[0].(*ast.Ident)
+	if !ok {
+		return nil, false
+	}
+	ivo := astx.Obj(info, iv)
+	post, ok := fs.Post.(*ast.IncDecStmt)
+	if !ok {
+		return nil, false
+	}
+	if pid, ok := ast.Unparen(post.X).(*ast.Ident); !ok || astx.Obj(info, pid) != ivo {
+		return nil, false
+	}
+	be, ok := ast.Unparen(fs.Cond).(*ast.BinaryExpr)
+	if !ok {
+		return nil, false
+	}
+	isIV := func(e ast.Expr) bool {
+		id, ok := ast.Unparen(e).(*ast.Ident)
+		return ok && astx.Obj(info, id) == ivo
+	}
+	initVal := init.Rhs[0]
+	for {
+		if cc, ok := ast.Unparen(initVal).(*ast.CallExpr); ok && astx.IsConversion(info, cc) && len(cc.Args) == 1 {
+			initVal = cc.Args[0]
+			continue
+		}
+		break
+	}
+	zero := func(e ast.Expr) bool { z, ok := astx.ConstInt(info, e); return ok && z == 0 }
+	one := func(e ast.Expr) bool { z, ok := astx.ConstInt(info, e); return ok && z == 1 }
+	if post.Tok == token.INC && zero(initVal) {
+		if be.Op == token.LSS && isIV(be.X) {
+			return be.Y, true
+		}
+		if be.Op == token.GTR && isIV(be.Y) {
+			return be.X, true
+		}
+		return nil, false
+	}
+	if post.Tok == token.DEC {
+		if isIV(be.X) && (be.Op == token.GTR && zero(be.Y) || be.Op == token.GEQ && one(be.Y) || be.Op == token.NEQ && zero(be.Y)) {
+			return init.Rhs[0], true
+		}
+		if isIV(be.Y) && (be.Op == token.LSS && zero(be.X) || be.Op == token.LEQ && one(be.X) || be.Op == token.NEQ && zero(be.X)) {
+			return init.Rhs[0], true
+		}
+	}
+	return nil, false
+}
